@@ -196,6 +196,38 @@ func runC16(w *World, r *Report) {
 		}
 	}
 
+	// taking a transaction out of awaiting is the gate to sealing it: it must happen exactly once
+	r.rule("removal-atomic", "RemoveAwaitedTransaction reads, checks and deletes the entry under one exclusive lock and fails when the entry is already gone (so of several overlapping confirm/reject calls only one seals)", 2)
+	if f := w.fx(r, "cache", "Hippocampus", "RemoveAwaitedTransaction"); f != nil {
+		li := ComputeLocks(w, func(fn *ssa.Function) bool { return fn.Pkg != nil && fn.Pkg.Pkg.Path() == modPath+"/cache" })
+		var del ssa.CallInstruction
+		okLock := true
+		n := 0
+		instrsOf(f.fn, func(in ssa.Instruction) {
+			c, ok := in.(ssa.CallInstruction)
+			if !ok || !strings.HasPrefix(calleeName(c), "(*"+bigPkg+".BigCache).") {
+				return
+			}
+			n++
+			if !li.At(c).Has(hipMux, "W") {
+				okLock = false
+			}
+			if strings.HasSuffix(calleeName(c), ").Delete") && del == nil {
+				del = c
+			}
+		})
+		r.check(okLock && n >= 3, "removal-atomic", "RemoveAwaitedTransaction/one-critical-section", w.Pos(f.fn.Pos()), "lookup, receiver check and delete share one exclusive critical section", fmt.Sprintf("%d cache calls, all under the lock: %v", n, okLock))
+		okDel := del != nil
+		if del != nil {
+			for _, ret := range returnsOf(f.fn) {
+				if successReturn(ret) && !behind(ret, passErrNil(del)) {
+					okDel = false
+				}
+			}
+		}
+		r.check(okDel, "removal-atomic", "RemoveAwaitedTransaction/delete-must-succeed", w.Pos(f.fn.Pos()), "the transaction is handed to the caller only if this call deleted the entry", "a success return is reachable although Delete reported an error (entry already taken by another call)")
+	}
+
 	// challenge validation
 	r.rule("challenge-validation", "ValidateData returns true only behind: entry exists for the address, not expired, bytes.Equal(data, stored)", 1)
 	if f := w.fx(r, "dataprovider", "Cache", "ValidateData"); f != nil {
